@@ -1,5 +1,6 @@
 import NitroVerif.Lemmas.UsageWidth
 import NitroVerif.Lemmas.UsageForced
+import NitroVerif.Lemmas.UsageSection
 import NitroVerif.Model.Usage
 import NitroVerif.Props.C17
 
@@ -307,5 +308,44 @@ example : fpLines 4 12 8 (some 4) ["aa".toList, "bb".toList, "cccccccccccccc".to
     [(24, true), (6, false)] := by decide
 example : lineLens 0 (fpGo 4 12 8 (some 4) ["aa".toList, "bb".toList, "cccccccccccccc".toList, "dd".toList]) =
     [24, 6] := by decide
+
+/-- **The width clause for the whole option section**, no assumption on the words: the lines of the concatenated
+entries are exactly the ghost lines of the single entries (every entry finishes its last line), every line's core
+is a prefix length of the line, and every core keeps within its entry's left column or 80 - a line of the option
+section exceeds that only by the never-fitting words at its end. -/
+theorem width_option_section (es : List Entry) (h : ∀ e ∈ es, '\n' ∉ entryLeft e ∧ '\n' ∉ entryText e) :
+    lineLens 0 ((es.map formatEntry).flatten) = (es.flatMap entryCores).map (·.1) ++ [0] ∧
+    ∀ p ∈ es.flatMap entryCores, p.2 ≤ p.1 ∧ ∃ e ∈ es, p.2 ≤ max (entryLeft e).length 80 := by
+  refine ⟨section_lines es h, fun p hp => ?_⟩
+  obtain ⟨e, he, hpe⟩ := List.mem_flatMap.mp hp
+  exact ⟨(entryCores_width e p hpe).1, e, he, (entryCores_width e p hpe).2⟩
+
+/-- … and when every left column fits (the complement is finding U2), every core is at most 80. -/
+theorem width_option_section_80 (es : List Entry) (h : ∀ e ∈ es, '\n' ∉ entryLeft e ∧ '\n' ∉ entryText e)
+    (hl : ∀ e ∈ es, (entryLeft e).length ≤ 80) :
+    ∀ p ∈ es.flatMap entryCores, p.2 ≤ p.1 ∧ p.2 ≤ 80 := by
+  intro p hp
+  obtain ⟨h1, e, he, h2⟩ := (width_option_section es h).2 p hp
+  have := hl e he
+  exact ⟨h1, by omega⟩
+
+/-- **The lines of a whole group**: an empty line, the heading, (an empty line, the description, an empty line,)
+then the entries' lines.  Heading and description are written as they are (finding U4 is about them). -/
+theorem width_group (g : Group) (hne : g.entries ≠ []) (hn : '\n' ∉ g.name) (hd : '\n' ∉ g.description)
+    (h : ∀ e ∈ g.entries, '\n' ∉ entryLeft e ∧ '\n' ∉ entryText e) :
+    lineLens 0 (groupUsage g) =
+      [0, g.name.length + 1] ++ (if g.description ≠ [] then [0, g.description.length, 0] else []) ++
+        (g.entries.flatMap entryCores).map (·.1) ++ [0] :=
+  group_lines g hne hn hd h
+
+-- non-vacuity: two entries, the second with a 45-character word that can never fit behind the 40-column padding, meet
+-- the hypotheses (no line break in the left column or the text); evaluated by the driver their ghost is
+-- [(49, 49), (88, 42), (42, 42)] and the line lengths of the section are [49, 88, 42, 0]: the 88-column line has a core
+-- of 42 - it exceeds the width only by that word
+example :
+    let e1 : Entry := ⟨.t, "verbose".toList, "v".toList, [], [], "be chatty".toList, none, none, 0, false⟩
+    let e2 : Entry := ⟨.o, "out".toList, [], [], "FILE".toList,
+      ("to " ++ String.ofList (List.replicate 45 'x') ++ " go").toList, none, none, 0, false⟩
+    ∀ e ∈ [e1, e2], '\n' ∉ entryLeft e ∧ '\n' ∉ entryText e := by decide
 
 end NitroVerif.Props.C15
